@@ -76,6 +76,87 @@ def local_defs(fn, name):
     return out
 
 
+def opened_name_rule(prog, ctx, rule):
+    """the parser opens the name it is handed - the one the gate checked and showed to the callback - letter for letter"""
+    from sa.dataflow import ReachingDefs as _RD7
+    pf = prog.fn(common.PARSER)
+    ctx.touch(pf)
+    fo = pf.calls(("fopen", "fopen64", "open", "open64", "openat"))
+    if not fo:
+        ctx.inconclusive(rule, "the parser opens the name it is given", pf.where, "no fopen()/open() in %s" % pf.name)
+        return
+    pname = pf.params[1]["name"] if len(pf.params) > 1 else None
+    rd7 = _RD7(pf)
+    for c in fo:
+        a = c.call_args()[1 if c.j.get("callee") == "openat" else 0].strip()
+        srcs = [a]
+        if a.k == "DeclRefExpr" and a.j.get("dk") == "local":
+            srcs = [d.rhs.strip() for d in rd7.reaching(a.j["name"], c) if d.rhs is not None]
+        bad = [x for x in srcs if not (x.k == "DeclRefExpr" and x.j.get("dk") == "param" and x.j.get("name") == pname)
+               and not (x.k == "CallExpr" and x.j.get("callee") in ("strdup",) and query.refs_param(x.call_args()[0], pname))]
+        if not srcs:
+            ctx.inconclusive(rule, "the parser opens the name it is given", c.where, "source of `%s` not found" % render(a))
+        elif bad:
+            ctx.fail(rule, "the parser opens the name it is given", c.where,
+                     "%s(%s): the name opened is computed (%s), not the name the gate checked and showed to the callback - where the two differ (a symbolic link "
+                     "in `dir/..`, another spelling) a file nobody accepted is read" % (c.j.get("callee"), render(a), render(bad[0])[:60]), key="opened-name")
+        else:
+            ctx.ok(rule, "the parser opens the name it is given", c.where, "%s(%s, ..)" % (c.j.get("callee"), pname))
+
+
+def abs_path_rule(prog, ctx, rule):
+    """get_absolute_path returns a copy of its argument (or of realpath(argument)) and nothing else"""
+    # get_absolute_path returns a copy of its argument (or of realpath(argument))
+    gap = prog.fn("get_absolute_path")
+    ctx.touch(gap)
+    bad = []
+    n_src = 0
+    for c in gap.calls(("strdup", "strndup")):
+        a = c.call_args()[0].strip()
+        if a.k == "DeclRefExpr" and a.j.get("dk") == "param" and a.j.get("name") == gap.params[0]["name"]:
+            n_src += 1
+            continue
+        if a.k == "DeclRefExpr" and a.j.get("dk") == "local":
+            rp = [r for r in gap.calls("realpath") if render(r.call_args()[1]) == a.j["name"]
+                  and query.refs_param(r.call_args()[0], gap.params[0]["name"])]
+            if rp:
+                n_src += 1
+                continue
+        bad.append(c)
+    # ... and nothing else is returned: every definition of the returned variable is one of those copies (or NULL)
+    other = []
+    from sa.dataflow import ReachingDefs as _RD6
+    rd6 = _RD6(gap)
+    for r in gap.returns():
+        if not r.children or r.children[0].is_null_const():
+            continue
+        e6 = r.children[0].strip()
+        ds6 = rd6.reaching(e6.j["name"], r) if e6.k == "DeclRefExpr" and e6.j.get("dk") == "local" else None
+        exprs = [d.rhs for d in ds6 if d.rhs is not None] if ds6 else [e6]
+        for x6 in exprs:
+            x0 = x6.strip()
+            if x0.is_null_const():
+                continue
+            if x0.k == "CallExpr" and x0.j.get("callee") in ("strdup", "strndup", "realpath"):
+                continue
+            other.append(x0)
+    statics = [x for x in gap.walk() if x.k == "DeclRefExpr" and x.j.get("dk") in ("static_local", "global", "static_global")
+               and (x.j.get("ct") or "").replace("const ", "") not in ("econf_err",)]
+    if other and not bad:
+        stat6 = sorted(set(x.j.get("name") for x in statics if any(x.j.get("name") in render(o6) for o6 in other)))
+        if stat6:
+            ctx.fail(rule, "get_absolute_path names the same file", other[0].where,
+                     "the name returned is composed with `%s`, which keeps what an earlier call saw (the working directory at that time): after a chdir() the "
+                     "file opened is not the file the callback was shown" % stat6[0], key="abs-path-stale")
+        else:
+            ctx.inconclusive(rule, "get_absolute_path names the same file", other[0].where, "returns %s: composition not understood" % render(other[0])[:60])
+    elif bad or n_src == 0:
+        ctx.fail(rule, "get_absolute_path names the same file", (bad[0] if bad else gap).where,
+                 "result is not a copy of the argument or of its realpath", key="abs-path-source")
+    else:
+        ctx.ok(rule, "get_absolute_path names the same file", gap.where, "%d copies, all of `path` or realpath(path)" % n_src)
+
+
 def g2(prog, ctx, gate):
     cfg = gate.cfg
     pcall = query.unique_call(gate, common.PARSER)
@@ -176,28 +257,8 @@ def g2(prog, ctx, gate):
         ctx.fail("G2", "the file parsed is the file checked", pcall.where,
                  "the path handed to the parser (%s) is not derived from the file_name the callback saw" % render(a1),
                  key="parsed-path-source")
-    # get_absolute_path returns a copy of its argument (or of realpath(argument))
-    gap = prog.fn("get_absolute_path")
-    ctx.touch(gap)
-    bad = []
-    n_src = 0
-    for c in gap.calls(("strdup", "strndup")):
-        a = c.call_args()[0].strip()
-        if a.k == "DeclRefExpr" and a.j.get("dk") == "param" and a.j.get("name") == gap.params[0]["name"]:
-            n_src += 1
-            continue
-        if a.k == "DeclRefExpr" and a.j.get("dk") == "local":
-            rp = [r for r in gap.calls("realpath") if render(r.call_args()[1]) == a.j["name"]
-                  and query.refs_param(r.call_args()[0], gap.params[0]["name"])]
-            if rp:
-                n_src += 1
-                continue
-        bad.append(c)
-    if bad or n_src == 0:
-        ctx.fail("G2", "get_absolute_path names the same file", (bad[0] if bad else gap).where,
-                 "result is not a copy of the argument or of its realpath", key="abs-path-source")
-    else:
-        ctx.ok("G2", "get_absolute_path names the same file", gap.where, "%d copies, all of `path` or realpath(path)" % n_src)
+    abs_path_rule(prog, ctx, "G2")
+    opened_name_rule(prog, ctx, "G2")
 
 
 def g3(prog, ctx, chain):
